@@ -105,6 +105,47 @@ pub fn worker_task(world: &mut dyn World, task: &Value, io: &mut WorkerIo) -> Va
                 out.push(rec);
             }
         }
+        4 => {
+            // scripted histories: run each history completely (every step judged), then probe the end state
+            for h in hists.iter() {
+                io.announce_case(json!({"h": h, "scripted": true}));
+                let mut rec = json!({"h": h});
+                let r = (|| -> Result<(), String> {
+                    world.reset()?;
+                    let mut devs: Vec<Value> = Vec::new();
+                    let mut obs: Vec<String> = Vec::new();
+                    let mut ok = true;
+                    for a in h.iter() {
+                        let s = world.apply(*a)?;
+                        obs.push(s.obs.clone());
+                        if let Some((sig, detail)) = s.dev {
+                            devs.push(json!({"sig": sig, "detail": detail}));
+                        }
+                        if !s.ok {
+                            ok = false;
+                            break;
+                        }
+                    }
+                    let mut probes = 0;
+                    if ok {
+                        let p = world.probe(h)?;
+                        probes = p.probes;
+                        for (s, d) in p.devs {
+                            devs.push(json!({"sig": s, "detail": d}));
+                        }
+                    }
+                    rec["devs"] = json!(devs);
+                    rec["obs"] = json!(obs);
+                    rec["probes"] = json!(probes);
+                    rec["completed"] = json!(ok);
+                    Ok(())
+                })();
+                if let Err(e) = r {
+                    errors.push(e);
+                }
+                out.push(rec);
+            }
+        }
         3 => {
             // describe the alphabet + fingerprint of the initial state
             let r = (|| -> Result<Value, String> {
@@ -332,4 +373,53 @@ pub fn run(pool: &Pool, cfg: &E1Config, report: &mut RunReport) -> E1Stats {
     stats.distinct_outcomes = outcomes.len() + obs_set.len();
     stats.samples = samples.items;
     stats
+}
+
+/// Parent: run a fixed list of scripted histories (E2-style scenario enumeration on an E1 world).
+/// Returns (executions, probe evaluations, distinct observation sequences, samples).
+pub fn run_scripted(pool: &Pool, spec: &str, hists: Vec<Vec<usize>>, report: &mut RunReport) -> (u64, u64, usize, Vec<Value>, Vec<Vec<String>>) {
+    let info = pool.map(vec![json!({"spec": spec, "phase": 3})], 0);
+    let actions: Vec<String> = match &info[0] {
+        Outcome::Done(v) => v["info"]["actions"].as_array().map(|a| a.iter().map(|s| s.as_str().unwrap_or("").to_string()).collect()).unwrap_or_default(),
+        Outcome::Died { status, .. } => {
+            report.machinery_errors.push(format!("{}: worker died describing the alphabet: {}", spec, status));
+            vec![]
+        }
+    };
+    let tasks: Vec<Value> = hists.chunks(8).map(|c| json!({"spec": spec, "phase": 4, "hists": c})).collect();
+    let res = pool.map(tasks, 400);
+    let mut execs = 0u64;
+    let mut probes = 0u64;
+    let mut obs_set: BTreeSet<String> = BTreeSet::new();
+    let mut samples = Vec::new();
+    let mut all_obs: Vec<Vec<String>> = Vec::new();
+    for o in res {
+        match o {
+            Outcome::Done(v) => {
+                for e in v["errors"].as_array().cloned().unwrap_or_default() {
+                    report.machinery_errors.push(format!("{}: {}", spec, e.as_str().unwrap_or("?")));
+                }
+                for r in v["recs"].as_array().cloned().unwrap_or_default() {
+                    let h = hist_of(&r["h"]);
+                    execs += 1;
+                    probes += r["probes"].as_u64().unwrap_or(0);
+                    let obs: Vec<String> = r["obs"].as_array().map(|a| a.iter().map(|s| s.as_str().unwrap_or("").to_string()).collect()).unwrap_or_default();
+                    obs_set.insert(obs.join(" ; "));
+                    all_obs.push(obs.clone());
+                    for d in r["devs"].as_array().cloned().unwrap_or_default() {
+                        report.deviations.push(Deviation {
+                            property: report.property.clone(),
+                            sig: d["sig"].as_str().unwrap_or("").to_string(),
+                            replay: json!({"kind": "e1", "spec": spec, "history": h, "actions": render_hist(&actions, &h), "detail": d["detail"]}),
+                        });
+                    }
+                    if samples.len() < 4 {
+                        samples.push(json!({"schedule": render_hist(&actions, &h), "observed": obs}));
+                    }
+                }
+            }
+            Outcome::Died { status, case } => report.machinery_errors.push(format!("{}: worker died in a scripted history: {} at {:?}", spec, status, case)),
+        }
+    }
+    (execs, probes, obs_set.len(), samples, all_obs)
 }
